@@ -265,7 +265,38 @@ def raising_history(n=700):
             raise
         except Exception:  # noqa: BLE001
             raised += 1
+    _probe_after_history()
     return raised
+
+
+HISTORY_FAILURES = []
+
+
+def _probe_after_history():
+    """Ordinary small trees right after the raising prelude, with the interpreter's DEFAULT recursion limit restored (the
+    harness raises it for its own deep inputs; a user's process has the default, and a guard computed from it must not
+    have been used up by calls that raised)."""
+    from predicate import eq_p, ge_p, le_p, always_false_p
+    from predicate.predicate import AndPredicate, NotPredicate, OrPredicate
+
+    old = sys.getrecursionlimit()
+    sys.setrecursionlimit(1000)
+    try:
+        probes = [
+            ("(and (eq 1) (eq 1))", lambda: AndPredicate(eq_p(1), eq_p(1)), "eq_p(1)"),
+            ("(or (not (ge 2)) (ge 2))", lambda: OrPredicate(NotPredicate(ge_p(2)), ge_p(2)), "always_true_p"),
+            ("(and (and (ge 1) (le 0)) (eq 5))", lambda: AndPredicate(AndPredicate(ge_p(1), le_p(0)), eq_p(5)), None),
+        ]
+        for text, mk, want in probes:
+            try:
+                got = repr(optimize(mk()))
+            except Exception as e:  # noqa: BLE001
+                HISTORY_FAILURES.append((text, f"RAISED {type(e).__name__}: {e}"))
+                continue
+            if want is not None and got != want:
+                HISTORY_FAILURES.append((text, f"returned {got}, a fresh process returns {want}"))
+    finally:
+        sys.setrecursionlimit(old)
 
 
 def detect_cfg():
@@ -406,6 +437,9 @@ def run(chk, name, cases, cfg, differs, share=False, restore_vars=True):
       quirk listed as an open known finding for this property."""
     cases = list(cases)
     known = {f["quirk"]: f["id"] for f in open_findings(chk.pid) if "quirk" in f}
+    while HISTORY_FAILURES:
+        text, what = HISTORY_FAILURES.pop()
+        chk.add_failure(text + "  [after a history of optimize() calls that raised and were caught; default recursion limit]", {"what": "optimize no longer answers an ordinary tree after earlier calls raised: " + what}, None)
     global COVER
     if COVER is None:
         COVER = ArmCoverage()
